@@ -8,7 +8,8 @@ from . import posix_oracle as PO
 from . import props_posix as PP
 from .props_zone import run_blocks, note_mismatches, site_sig
 
-THEOREMS = {'C12': []}
+THEOREMS = {'C12': ['Cctz.C12.constants', 'Cctz.C12.extend_no_unset', 'Cctz.C12.builtin_shape', 'Cctz.C12.load_safe', 'Cctz.C12.load_shape',
+                    'Cctz.C12.queries_safe', 'Cctz.C12.queries_safe_counterexample']}
 CAP = 16 * 1024 * 1024
 
 
